@@ -24,6 +24,7 @@ import (
 	"github.com/dominant-strategies/go-quai/consensus/misc"
 	"github.com/dominant-strategies/go-quai/core"
 	"github.com/dominant-strategies/go-quai/core/rawdb"
+	"github.com/dominant-strategies/go-quai/core/state"
 	"github.com/dominant-strategies/go-quai/core/types"
 	"github.com/dominant-strategies/go-quai/log"
 	"github.com/dominant-strategies/go-quai/params"
@@ -952,7 +953,7 @@ func runMint(c MintJS, cw *hlib.CaseWriter, rep *hlib.Report) {
 				panicked = fmt.Sprint(r)
 			}
 		}()
-		_, _, _, _, _, _, _, _, _, err = core.VerifMintQuaiToQi(p, block, common.ZONE_CTX, etx, etx, gp, usedGas, batch, supply, ucd, out)
+		_, _, _, _, _, _, _, _, _, err = core.VerifMintQuaiToQi(p, block, common.ZONE_CTX, etx, etx, gp, usedGas, batch, supply, ucd, common.Address{}, nil, nil, out)
 	}()
 	rep.Evaluations++
 	if panicked != "" {
@@ -1060,6 +1061,196 @@ func runMint(c MintJS, cw *hlib.CaseWriter, rep *hlib.Report) {
 	}
 }
 
+// ---------- destination: the two ConversionRevert branches of Process ----------
+
+type RevertJS struct {
+	ID       int    `json:"id"`
+	Kind     string `json:"kind"` // revert_qi | revert_quai
+	Value    string `json:"value"`
+	Gas      uint64 `json:"gas"`
+	PoolGas  uint64 `json:"pool_gas"`
+	BlockNum uint64 `json:"block_num"`
+	Index    bool   `json:"index"`
+}
+
+// a reverted Qi->Quai conversion: the original Qi must come back to the refund address in the ETX data
+func runRevertQi(c RevertJS, cw *hlib.CaseWriter, rep *hlib.Report) {
+	loc := common.Location{0, 0}
+	block := types.EmptyWorkObject(common.ZONE_CTX)
+	block.WorkObjectHeader().SetNumber(new(big.Int).SetUint64(c.BlockNum))
+	block.WorkObjectHeader().SetLocation(loc)
+	to := toAddr(false, c.ID)
+	refund := toAddr(true, c.ID)
+	var oh common.Hash
+	oh[0], oh[30], oh[31] = 0xc4, byte(c.ID>>8), byte(c.ID)
+	value := bi(c.Value)
+	data := append([]byte{0, 100}, refund.Bytes()...)
+	etx := types.NewTx(&types.ExternalTx{OriginatingTxHash: oh, ETXIndex: 0, Gas: c.Gas, To: &to, Value: value, Data: data,
+		Sender: common.ZeroAddress(loc), EtxType: types.ConversionRevertType})
+	sender := common.BytesToAddress(etx.Data()[2:22], loc) // as Process derives it
+	gp := new(types.GasPool).AddGas(c.PoolGas)
+	usedGas := new(uint64)
+	db := rawdb.NewMemoryDatabase(logger)
+	batch := db.NewBatch()
+	supply := big.NewInt(0)
+	ucd := &core.UtxosCreatedDeleted{AddressOutpointsToAddMap: map[[20]byte][]*types.OutpointAndDenomination{}}
+	p := core.NewVerifC20StateProcessor(&params.ChainConfig{ChainID: big.NewInt(1), Location: loc, IndexAddressUtxos: c.Index}, logger)
+	out := &core.VerifC20MintOut{}
+	var err error
+	panicked := ""
+	func() {
+		defer func() {
+			if r := recover(); r != nil {
+				panicked = fmt.Sprint(r)
+			}
+		}()
+		_, _, _, _, _, _, _, _, _, err = core.VerifRevertToQi(p, block, common.ZONE_CTX, etx, etx, gp, usedGas, batch, supply, ucd, sender, &to, nil, out)
+	}()
+	rep.Evaluations++
+	if panicked != "" {
+		rep.Fail("revert-qi:panic", "the Qi refund branch of Process panics: "+panicked, c)
+		return
+	}
+	if err != nil {
+		if c.PoolGas >= c.Gas {
+			rep.Fail("revert-qi:unexpected-error", "branch returned "+err.Error()+" although the gas pool covers the ETX gas", c)
+		}
+		rep.Count("revert-qi:gas-pool-exhausted")
+		return
+	}
+	rep.TracesValidated++
+	if !out.Reached || len(out.Receipts) != 1 {
+		rep.Fail("revert-qi:no-single-receipt", fmt.Sprintf("%d receipts", len(out.Receipts)), c)
+		return
+	}
+	rc := out.Receipts[0]
+	created := len(ucd.UtxosCreatedKeys)
+	if err := batch.Write(); err != nil {
+		panic(err)
+	}
+	refunded := big.NewInt(0)
+	lockWant := new(big.Int).SetUint64(c.BlockNum + params.ConversionLockPeriod)
+	for i := 0; i < created; i++ {
+		u := rawdb.GetUTXO(db, etx.Hash(), uint16(i))
+		if u == nil {
+			rep.Fail("revert-qi:utxo-missing", fmt.Sprintf("output %d reported created but not in the batch", i), c)
+			return
+		}
+		refunded.Add(refunded, types.Denominations[u.Denomination])
+		if u.Lock == nil || u.Lock.Cmp(lockWant) != 0 {
+			rep.Fail("revert-qi:wrong-lock", fmt.Sprintf("refund output %d locked until %v, want %s", i, u.Lock, lockWant), c)
+		}
+		if string(u.Address) != string(refund.Bytes()) {
+			rep.Fail("revert-qi:wrong-owner", fmt.Sprintf("refund output %d is not owned by the refund address of the conversion", i), c)
+		}
+	}
+	gasLeft := c.Gas - uint64(created)*params.CallValueTransferGas
+	cw.Add(fmt.Sprintf("(%d%%N, CRefund %s %d %s %d %d)", c.ID, z(value), c.Gas, z(refunded), created, gasLeft), c)
+	// what the trim rule may drop: the pieces of denomination <= MaxTrimDenomination
+	dust := big.NewInt(0)
+	pieces := uint64(0)
+	for d, cnt := range misc.FindMinDenominations(value) {
+		if int(d) <= types.MaxTrimDenomination {
+			dust.Add(dust, new(big.Int).Mul(new(big.Int).SetUint64(cnt), types.Denominations[d]))
+		} else {
+			pieces += cnt
+		}
+	}
+	want := new(big.Int).Sub(value, dust)
+	if refunded.Cmp(value) > 0 {
+		rep.Fail("revert-qi:refund-exceeds-original", fmt.Sprintf("refunded %s of %s", refunded, value), c)
+	}
+	if dust.Cmp(types.Denominations[uint8(types.MaxTrimDenomination+1)]) >= 0 {
+		rep.Fail("revert-qi:dust-rule", fmt.Sprintf("trim rule drops %s, not less than the smallest refundable denomination", dust), c)
+	}
+	switch {
+	case refunded.Cmp(want) == 0:
+		rep.Count("revert-qi:refund-complete-up-to-dust")
+	case refunded.Cmp(want) < 0:
+		// exactly the original (less dust) must come back; the only thing that can stand in the way is the ETX gas
+		// recorded finding: the refund loop is metered by the ETX gas (the fee surplus of the origin tx), 9000 per
+		// output, largest first.  Anything else that shortens the refund is not known.
+		cause := ""
+		paid := c.Gas / params.CallValueTransferGas
+		if paid > 65535 {
+			paid = 65535
+		}
+		if uint64(created) == paid && paid < pieces {
+			cause = ":etx-gas-limited"
+		}
+		rep.Fail("revert-qi:refund-short-of-original"+cause, fmt.Sprintf("reverted conversion of %s qits with ETX gas %d refunds only %s (dust rule would allow %s): %d of %d outputs were paid for",
+			value, c.Gas, refunded, want, created, pieces), c)
+	default:
+		rep.Fail("revert-qi:trimmed-denomination-minted", fmt.Sprintf("refunded %s, more than value minus dust %s", refunded, want), c)
+	}
+	if supply.Cmp(refunded) != 0 || (len(rc.Logs) == 1 && new(big.Int).SetBytes(rc.Logs[0].Data).Cmp(refunded) != 0) {
+		rep.Fail("revert-qi:accounting", "supplyAddedQi / logged total differ from the refunded outputs", c)
+	}
+	if *usedGas != uint64(created)*params.CallValueTransferGas || out.TotalEtxGas != *usedGas || gp.Gas() != c.PoolGas-*usedGas || rc.GasUsed != *usedGas {
+		rep.Fail("revert-qi:gas-accounting", fmt.Sprintf("usedGas %d totalEtxGas %d receipt %d for %d outputs", *usedGas, out.TotalEtxGas, rc.GasUsed, created), c)
+	}
+	if created > 1 {
+		rep.Nontrivial(fmt.Sprintf("revert-qi/%s/%d", c.Value, created))
+	}
+}
+
+// a reverted Quai->Qi conversion: the original Quai must be added back to the sender's balance
+func runRevertQuai(c RevertJS, cw *hlib.CaseWriter, rep *hlib.Report) {
+	loc := common.Location{0, 0}
+	to := toAddr(true, c.ID)
+	sender := toAddr(false, c.ID)
+	var oh common.Hash
+	oh[0], oh[30], oh[31] = 0xc5, byte(c.ID>>8), byte(c.ID)
+	value := bi(c.Value)
+	etx := types.NewTx(&types.ExternalTx{OriginatingTxHash: oh, ETXIndex: 0, Gas: c.Gas, To: &to, Value: value,
+		Sender: sender, EtxType: types.ConversionRevertType})
+	gp := new(types.GasPool).AddGas(c.PoolGas)
+	usedGas := new(uint64)
+	db := rawdb.NewMemoryDatabase(logger)
+	statedb, err := state.New(types.EmptyRootHash, types.EmptyRootHash, big.NewInt(0), state.NewDatabase(db), state.NewDatabase(db), nil, loc, logger)
+	if err != nil {
+		panic(err)
+	}
+	internal, ierr := sender.InternalAddress()
+	if ierr != nil {
+		panic(ierr)
+	}
+	before := big.NewInt(int64(c.ID) * 1000)
+	statedb.AddBalance(internal, before)
+	out := &core.VerifC20MintOut{}
+	panicked := ""
+	func() {
+		defer func() {
+			if r := recover(); r != nil {
+				panicked = fmt.Sprint(r)
+			}
+		}()
+		_, _, _, _, _, _, _, _, _, err = core.VerifRevertToQuai(nil, nil, common.ZONE_CTX, etx, etx, gp, usedGas, nil, nil, nil, sender, &to, statedb, out)
+	}()
+	rep.Evaluations++
+	if panicked != "" {
+		rep.Fail("revert-quai:panic", "the Quai refund branch of Process panics: "+panicked, c)
+		return
+	}
+	if err != nil {
+		if c.PoolGas >= params.QiToQuaiConversionGas {
+			rep.Fail("revert-quai:unexpected-error", "branch returned "+err.Error(), c)
+		}
+		rep.Count("revert-quai:gas-pool-exhausted")
+		return
+	}
+	rep.TracesValidated++
+	got := new(big.Int).Sub(statedb.GetBalance(internal), before)
+	if got.Cmp(value) != 0 {
+		rep.Fail("revert-quai:refund-not-original", fmt.Sprintf("reverted conversion of %s credits %s back", value, got), c)
+	}
+	if !out.Reached || len(out.Receipts) != 1 || out.Receipts[0].Status != types.ReceiptStatusSuccessful || *usedGas != params.QiToQuaiConversionGas {
+		rep.Fail("revert-quai:receipt", "no single successful receipt charging QiToQuaiConversionGas", c)
+	}
+	rep.Count("revert-quai:refund-exact")
+	rep.Nontrivial("revert-quai/" + c.Value)
+}
+
 type anyCase struct {
 	Kind string `json:"kind"`
 }
@@ -1094,6 +1285,14 @@ func main() {
 			var c DenJS
 			hlib.ReadReplayCase(f.Replay, &c)
 			runDen(c, cw, rep)
+		case "revert_qi", "revert_quai":
+			var c RevertJS
+			hlib.ReadReplayCase(f.Replay, &c)
+			if c.Kind == "revert_qi" {
+				runRevertQi(c, cw, rep)
+			} else {
+				runRevertQuai(c, cw, rep)
+			}
 		case "mint":
 			var c MintJS
 			hlib.ReadReplayCase(f.Replay, &c)
@@ -1177,6 +1376,65 @@ func main() {
 		}
 		m.BlockNum = 3000000
 		runMint(m, cw, rep)
+	}
+
+	// ---- corpus: reverts ----
+	for _, m := range []RevertJS{
+		{Kind: "revert_qi", Value: "5000000", Gas: 1000000}, // ample gas
+		{Kind: "revert_qi", Value: "1234", Gas: 1000000},    // 234 qits of dust
+		{Kind: "revert_qi", Value: "999", Gas: 1000000},     // all dust
+		{Kind: "revert_qi", Value: "5000000", Gas: 0},       // conversion paid exactly the minimum fee: ETX gas 0
+		{Kind: "revert_qi", Value: "123456789", Gas: 9000 * 3},
+		{Kind: "revert_qi", Value: "123456789", Gas: 9000*17 - 1}, {Kind: "revert_qi", Value: "123456789", Gas: 9000 * 17},
+		{Kind: "revert_quai", Value: params.MinQuaiConversionAmount.String(), Gas: 0},
+		{Kind: "revert_quai", Value: "123456789012345678901234567890", Gas: 100000},
+	} {
+		m.ID = next()
+		m.PoolGas, m.BlockNum = 50000000, 3000000
+		if m.Kind == "revert_qi" {
+			runRevertQi(m, cw, rep)
+		} else {
+			runRevertQuai(m, cw, rep)
+		}
+	}
+	for i := 0; i < f.N/3+10; i++ {
+		r := rng.Fork()
+		m := RevertJS{ID: next(), Kind: "revert_qi", BlockNum: uint64(1 + r.Intn(40000000)), PoolGas: 50000000, Index: r.Bool()}
+		var v *big.Int
+		switch r.Pick(4, 3, 2) {
+		case 0:
+			v = new(big.Int).SetUint64(r.Next() % 10000000000)
+		case 1:
+			v = new(big.Int).SetUint64(r.Next() % 200000)
+		default:
+			v = mul(types.Denominations[uint8(r.Intn(types.MaxDenomination+1))], int64(1+r.Intn(30)))
+		}
+		m.Value = v.String()
+		need := uint64(0)
+		for d, cnt := range misc.FindMinDenominations(v) {
+			if int(d) > types.MaxTrimDenomination {
+				need += cnt
+			}
+		}
+		// ETX gas of a Qi->Quai conversion is what the fee left after the required minimum: anything from 0 up
+		switch r.Pick(5, 2, 2, 1) {
+		case 0:
+			m.Gas = need*params.CallValueTransferGas + uint64(r.Intn(100000))
+		case 1:
+			m.Gas = uint64(r.Intn(int(need*params.CallValueTransferGas + 1)))
+		case 2:
+			m.Gas = need*params.CallValueTransferGas - uint64(r.Intn(2))
+			if need == 0 {
+				m.Gas = 0
+			}
+		default:
+			m.Gas = 0
+		}
+		runRevertQi(m, cw, rep)
+		if i%3 == 0 {
+			q := RevertJS{ID: next(), Kind: "revert_quai", Value: genQuaiAmount(r, params.StartingConversionFlowAmount).String(), Gas: uint64(r.Intn(200000)), PoolGas: 50000000}
+			runRevertQuai(q, cw, rep)
+		}
 	}
 
 	// ---- random ----
